@@ -42,6 +42,8 @@ class Job:
     snapshot_meta: bool = False  # record (mode, mtime_ns) per file as well
     proj_rel: str = "proj"  # where the target directory lives under the scratch root (e.g. "tests/venv/proj")
     debug_logs: bool = False  # capture DEBUG records too (without --verbose, so semgrep stays piped)
+    argv_seq: list | None = None  # in-process histories: one argv template per run (overrides argv / runs), same process, same paths
+    restore_between: bool = False  # put the original project files back before every run after the first
     out_kind: str | None = None  # what sits at the report path before the run: "fifo" (a reader is attached), "existing", "symlink"
 
 
@@ -361,10 +363,14 @@ def run_inproc(job: Job) -> Observation:
             obs.before = read_tree(proj)
         if job.pre_hook:
             undo = _resolve_hook(job.pre_hook)(job.pre_hook_arg, obs)
-        for i in range(job.runs):
+        for i in range(len(job.argv_seq) if job.argv_seq else job.runs):
+            if i and job.restore_between:
+                shutil.rmtree(proj)
+                proj.mkdir(parents=True)
+                write_tree(proj, job.files, job.modes)
             out = Path(_subst([job.out_path], mapping, resd)[0]) if job.out_path else root / f"out{i}.codetf"
             mapping["out"] = str(out)
-            argv = _subst(job.argv, mapping, resd)
+            argv = _subst(job.argv_seq[i] if job.argv_seq else job.argv, mapping, resd)
             if job.output:
                 argv += ["--output", str(out)]
             target = _OutTarget(job.out_kind, out, root) if job.out_kind else None
